@@ -295,7 +295,9 @@ func feed4on(t *Trace, ll *live4, in in4, r *rand.Rand, evname string) {
 	frames := capt.frames
 	capt.mu.Unlock()
 	out["n"] = len(sent)
-	if len(sent) >= 1 && perr == nil {
+	if len(sent) >= 1 && perr == nil && sent[0].Resp == nil {
+		out["sent"] = true // a nil response reached the send path
+	} else if len(sent) >= 1 && perr == nil {
 		s := sent[0]
 		out["sent"] = true
 		out["type"] = int(s.Resp.MessageType())
@@ -578,7 +580,9 @@ func feed6(t *Trace, in in6, r *rand.Rand) {
 	sent := append([]server.VerifSent6(nil), capt.s6...)
 	capt.mu.Unlock()
 	out["n"] = len(sent)
-	if len(sent) >= 1 && perr == nil {
+	if len(sent) >= 1 && perr == nil && sent[0].Resp == nil {
+		out["sent"] = true // a nil response reached the send path
+	} else if len(sent) >= 1 && perr == nil {
 		s := sent[0]
 		out["sent"] = true
 		inner, ierr := req.GetInnerMessage()
@@ -918,11 +922,15 @@ func runChains(t *Trace, seed int64, maxLen int) error {
 			e := Ev{"ev": "chain", "proto": proto, "bs": bs, "invoked": invoked, "saw": saw, "reqsame": reqsame, "panic": pan != nil,
 				"sent": false, "n": 0, "out": Ev{"id": -1, "marks": []int{}}}
 			capt.mu.Lock()
-			if proto == 4 && len(capt.s4) > 0 {
+			if proto == 4 && len(capt.s4) > 0 && capt.s4[0].Resp == nil {
+				e["sent"], e["n"] = true, len(capt.s4) // a nil response reached the send path
+			} else if proto == 4 && len(capt.s4) > 0 {
 				id, ms := marksOf4(capt.s4[0].Resp)
 				e["sent"], e["n"], e["out"] = true, len(capt.s4), Ev{"id": id, "marks": ms}
 			}
-			if proto == 6 && len(capt.s6) > 0 {
+			if proto == 6 && len(capt.s6) > 0 && capt.s6[0].Resp == nil {
+				e["sent"], e["n"] = true, len(capt.s6)
+			} else if proto == 6 && len(capt.s6) > 0 {
 				resp := capt.s6[0].Resp
 				if resp.IsRelay() {
 					if m, err := resp.GetInnerMessage(); err == nil {
@@ -990,6 +998,10 @@ func runLoads(t *Trace, seed int64, maxList int) {
 			// identify the handlers by what they record when called
 			ids4, ids6 := []int{}, []int{}
 			for _, h := range h4 {
+				if h == nil {
+					ids4 = append(ids4, -2) // a nil handler in the list the server would call
+					continue
+				}
 				synMu.Lock()
 				synCalls, synFirst4 = nil, nil
 				synMu.Unlock()
@@ -1004,6 +1016,10 @@ func runLoads(t *Trace, seed int64, maxList int) {
 				synMu.Unlock()
 			}
 			for _, h := range h6 {
+				if h == nil {
+					ids6 = append(ids6, -2)
+					continue
+				}
 				synMu.Lock()
 				synCalls, synFirst6 = nil, nil
 				synMu.Unlock()
